@@ -208,6 +208,10 @@ impl Ctx {
             cov.insert("evaluations".into(), json!(self.evaluations.load(Ordering::Relaxed)));
         }
         cov.insert("distinct_outcomes".into(), json!(outcomes.len()));
+        // the observed outcome classes themselves (to be read: one class from many executions means nothing collided)
+        let mut listed: Vec<&String> = outcomes.iter().collect();
+        listed.sort();
+        cov.insert("outcomes_observed".into(), json!(listed.iter().take(400).collect::<Vec<_>>()));
         cov.insert("counters".into(), json!(*counters));
         cov.insert("known_finding_keys_seen".into(), json!(known_seen));
         cov.insert(
